@@ -114,6 +114,7 @@ func (f *Fetcher) processQueue(ctx context.Context, hashes []cid.Cid) []iface.IP
 		// get next hash
 		hash := queue.Next()
 		f.tasksCache[hash] = taskKindInProgress
+		verifHook("fetch.dispatch", hash)
 
 		// run process
 		go func(hash cid.Cid) {
@@ -127,6 +128,7 @@ func (f *Fetcher) processQueue(ctx context.Context, hashes []cid.Cid) []iface.IP
 			f.processDone()
 
 			f.muProcess.Lock()
+			verifHook("fetch.complete", hash)
 
 			if entry != nil {
 				entryHash := entry.GetHash()
